@@ -55,7 +55,33 @@ def generate(rng, seed, index, tier):
         return {'op': 'emit', 'src': src, 'v': TOKEN_BASE + tok[0]}
 
     ops.append(emit('A'))
-    for _ in range(nops):
+    pattern_at = rng.randrange(0, nops) if rng.random() < 0.35 else None
+    for it in range(nops):
+        if it == pattern_at:
+            # biased history: cut the asynchronous node off while an element is inside it, give it a new
+            # input, use it (a node that stops working once it has lost its inputs shows only here)
+            srcs = [s_ for s_ in ('A', 'B') if _arrives(edges, s_, apos)]
+            if srcs:
+                e0 = emit(rng.choice(srcs))
+                e0['nosettle'] = True
+                ops.append(e0)
+                if rng.random() < 0.5:
+                    ops.append({'op': 'destroy', 'v': apos})
+                    for e in list(edges):
+                        if e[1] == apos:
+                            edges.discard(e)
+                else:
+                    cut = [e for e in sorted(edges, key=str) if e[1] == apos]
+                    for e in cut[:-1]:
+                        ops.append({'op': 'disconnect', 'u': e[0], 'v': e[1], 'nosettle': True})
+                        edges.discard(e)
+                    ops.append({'op': 'disconnect', 'u': cut[-1][0], 'v': cut[-1][1]})
+                    edges.discard(cut[-1])
+                src = rng.choice(['A', 'B'])
+                ops.append({'op': 'connect', 'u': src, 'v': apos})
+                edges.add((src, apos))
+                ops.append(emit(src))
+            continue
         r = rng.random()
         if r < 0.45:
             ops.append(emit(rng.choice(['A', 'A', 'B'])))
@@ -166,7 +192,7 @@ def run(sc):
                 rec.rec('emit', o['src'], o['v'], tuple(sorted(edges, key=str)))
                 aw = nodes[o['src']].emit(o['v'])
                 if aw is not None:
-                    await asyncio.wait_for(asyncio.ensure_future(_wrap(aw)), None)
+                    await aw        # (an awaitable that is already done does not give the loop a turn)
                 rec.rec('emit_done', o['v'])
             elif op == 'connect':
                 rec.rec('connect', o['u'], o['v'])
@@ -209,6 +235,14 @@ def run(sc):
         from .pipeline import _reset_streamz
         _reset_streamz()
     return rec, status[0], V
+
+
+def _arrives(edges, src, j):
+    """does an element emitted at src reach chain node j?"""
+    ok = False
+    for k in range(j + 1):
+        ok = ((src, k) in edges) or (ok and (k - 1, k) in edges)
+    return ok
 
 
 def _reach(edges, src, chain, side):
